@@ -108,7 +108,11 @@ def cells_of_fstring(node: ast.JoinedStr) -> List[Dict[str, Any]]:
             sp = parse_spec(spec) if ok else {"fill": " ", "align": "", "width": 0, "prec": -1, "type": "", "ok": False}
             if v.conversion != -1:
                 sp["ok"] = False
-            cells.append({"name": ast.unparse(v.value), **sp})
+            name = ast.unparse(v.value)
+            if name.endswith(".yyyydddsssss") and spec == "" and sp["ok"]:
+                # Time.yyyydddsssss is always the 14 characters YYYY:DDD:SSSSS - a fixed-width text cell
+                sp.update({"width": 14, "type": "s"})
+            cells.append({"name": name, **sp})
     return cells
 
 
